@@ -435,8 +435,24 @@ class Engine(Executor):
         assigned = sorted(assigned_names(ast.Module(body=stmt.body, type_ignores=[])))
         accs = {}
         for n, v in st.frame.locals.items():
-            if isinstance(v, Ref) and isinstance(st.heap.get(v.oid), (DictObj, ListObj)) and n not in assigned:
+            if not isinstance(v, Ref) or n in assigned:
+                continue
+            o = st.heap.get(v.oid)
+            if isinstance(o, (DictObj, ListObj)):
                 accs[n] = v
+            elif isinstance(o, Obj) and o.kind is None and o.ident is None:
+                # lists / dicts held in fields of a local object (e.g. result.hint_keys)
+                for fname, fv in o.fields.items():
+                    if isinstance(fv, Ref) and isinstance(st.heap.get(fv.oid), (DictObj, ListObj)):
+                        accs[f"{n}.{fname}"] = fv
+        seen_oids = set()
+        for n in list(accs):
+            if accs[n].oid in seen_oids or any(isinstance(x, L.MapSeg) and x is seg for x in ()):  # de-duplicate
+                del accs[n]
+            else:
+                seen_oids.add(accs[n].oid)
+        # the iterated list itself is not an accumulator
+        accs = {n: r for n, r in accs.items() if not (isinstance(st.heap[r.oid], ListObj) and st.heap[r.oid].lt is lt)}
         base = st.fork()
         pc_len = len(base.pc)
         base.assume(z3.And(seg.ivar >= 0, seg.ivar < seg.n))
@@ -504,7 +520,7 @@ class Engine(Executor):
             else:
                 o.lt = o.lt.cat(added)
         out: List[Tuple[State, Ctl]] = []
-        carried = [n for n in assigned if n not in _names(stmt.target)]
+        carried = [n for n in assigned if n not in _names(stmt.target) and _loop_carried(stmt.body, n)]
         normal_guard = z3.Or(*[g for g, _ in finals]) if finals else z3.BoolVal(False)
         jv = self.fresh_const("earlier", z3.IntSort())
 
@@ -1141,6 +1157,22 @@ class Engine(Executor):
 
 _HAVOC = type("_H", (), {"__repr__": lambda s: "<havoc>"})()
 _LOOPVAR = type("_LV", (), {"__repr__": lambda s: "<loop variable after loop>"})()
+
+
+def _loop_carried(body: Sequence[ast.stmt], name: str) -> bool:
+    """may the value of `name` flow from one iteration into the next?  No, if a top-level statement of the body
+    assigns it before any read (conservative: anything else counts as carried)"""
+    for st_ in body:
+        loads = any(isinstance(n, ast.Name) and n.id == name and isinstance(n.ctx, ast.Load) for n in ast.walk(st_))
+        if isinstance(st_, (ast.Assign, ast.AnnAssign)):
+            tg = st_.targets if isinstance(st_, ast.Assign) else [st_.target]
+            value_loads = st_.value is not None and any(
+                isinstance(n, ast.Name) and n.id == name for n in ast.walk(st_.value))
+            if any(isinstance(t, ast.Name) and t.id == name for t in tg) and not value_loads:
+                return False
+        if loads or any(isinstance(n, ast.Name) and n.id == name for n in ast.walk(st_)):
+            return True
+    return False
 
 
 def _names(t: ast.expr) -> List[str]:
